@@ -1015,7 +1015,17 @@ func (s *Service) runPipeline(ctx context.Context, rp *runnablePipeline) error {
 				return nil
 			}
 			if err != nil {
-				return cerrors.Errorf("node %s stopped with error: %w", node.ID(), err)
+				err = cerrors.Errorf("node %s stopped with error: %w", node.ID(), err)
+				// Record the reason on the tomb before returning, and thus
+				// before the deferred nodesWg.Done() above fires: the tomb
+				// only learns the return value of this function after it has
+				// returned. If this node is the last one to stop (e.g. the
+				// destination acker failing at the end of a graceful drain),
+				// the cleanup goroutine would otherwise wake from
+				// nodesWg.Wait(), still read tomb.ErrStillAlive and report a
+				// failed run as gracefully stopped (same as pkg/lifecycle-poc).
+				rp.t.Kill(err)
+				return err
 			}
 			return nil
 		})
